@@ -88,7 +88,7 @@ package tokenizers
 //@   nopanic
 //@ func (c *AbstractTokenizer) ClearCharacterStates
 //@   requires c != nil && c.mp != nil
-//@   ensures[C17,C13] mapInv(c.mp) && c.mp == old(c.mp) && (forall ch rune :: view(c.mp, ch) == nil)
+//@   ensures[C17,C13] mapInv(c.mp) && c.mp == old(c.mp) && fresh(c.mp.initialInterval) && (forall ch rune :: view(c.mp, ch) == nil)
 //@   assigns c.mp.initialInterval, c.mp.otherIntervals
 //@   nopanic
 //
